@@ -1,6 +1,8 @@
 import CrabProofs.Lemmas.IDomInst
 import CrabProofs.Lemmas.IDomCsts
 import CrabProofs.Lemmas.IDomThresholds
+import CrabProofs.Lemmas.IDomWF
+import CrabProofs.Lemmas.IDomFuel
 import CrabProofs.Props.C03
 import CrabProofs.Props.C01Engine
 
@@ -73,7 +75,8 @@ theorem C03.idom_apply_bitwise_sound_counterexample : ¬ C03.idom_apply_bitwise_
   let σ : State := fun _ => 1
   have hg : e.γ σ := Env.set_sound_same (Env.γ_top σ) ((Itv.mem_single 1 1).2 rfl)
   have hc : BitOp.conc .lshr (σ 0) (2 ^ 64) = some ((1 : Int) / 2 ^ ((2 : Int) ^ 64).toNat) := by
-    simp [BitOp.conc, σ]
+    show (if (0 : Int) ≤ 2 ^ 64 then some ((1 : Int) / 2 ^ ((2 : Int) ^ 64).toNat) else none) = _
+    rw [if_pos (by decide)]
   have := (h e σ .lshr 1 0 (2 ^ 64) _ hg hc).2 1
   rw [upd_same] at this
   have he : (e.applyBitCst .lshr 1 0 (2 ^ 64)).get 1 = Itv.lshr (Itv.single 1) (Itv.single (2 ^ 64)) := by decide
@@ -245,3 +248,95 @@ theorem C03.idom_run_sound (prog : Nat → List Stmt) (hok : ∀ n, ∀ st ∈ p
 /-- non-vacuity: `x := 0; assume x <= 5; y := x + 1` from top gives exactly the expected bindings -/
 example : (execBlock [.assign 0 (Expr.const 0), .assume [⟨(Expr.var 0).subNum 5, .leq⟩],
     .arithCst .add 1 0 1] SEnv.top).1 = ⟨false, [(0, Itv.single 0), (1, Itv.single 1)]⟩ := by decide
+
+/-! ### exactness of the model: unreachable CRAB_ERROR, sufficient fuel -/
+
+/-- every statement keeps every stored interval well formed (`lb ≠ +oo`, `ub ≠ -oo`) … -/
+theorem C03.idom_stmt_valwf (st : Stmt) (a : Env) (h : a.ValWF) : (st.exec a).ValWF := st.exec_valwf h
+
+/-- … and so do the lattice operations, `weak_assign` and `rename` -/
+theorem C03.idom_lattice_valwf (a b : Env) (ha : a.ValWF) (hb : b.ValWF) :
+    (Env.join a b).ValWF ∧ (Env.meet a b).ValWF ∧ (Env.widen a b).ValWF ∧ (Env.narrow a b).ValWF :=
+  ⟨Env.upperWith_valwf (fun _ _ => Itv.wf_join) ha hb, Env.lowerWith_valwf (fun _ _ => Itv.wf_meet) ha hb,
+   Env.upperWith_valwf (fun _ _ => Itv.wf_widen) ha hb, Env.lowerWith_valwf (fun _ _ => Itv.wf_narrow) ha hb⟩
+
+theorem C03.idom_widen_thresholds_valwf (ts : Thresholds) (hw : ts.WF) (a b : Env) (ha : a.ValWF) (hb : b.ValWF) :
+    (Env.widenTh ts a b).ValWF := Env.upperWith_valwf (fun _ _ => wf_widenTh hw) ha hb
+
+theorem C03.idom_weak_assign_valwf (e : Env) (x : Var) (ex : Expr) (h : e.ValWF) : (e.weakAssign x ex).ValWF :=
+  Env.weakAssign_valwf h x ex
+
+theorem C03.idom_rename_valwf (e e' : Env) (f t : List Var) (hr : e.rename f t = some e') (h : e.ValWF) : e'.ValWF :=
+  Env.rename_valwf hr h
+
+theorem C03.idom_top_bot_valwf : Env.top.ValWF ∧ Env.bot.ValWF := ⟨Env.valwf_top, Env.valwf_bot⟩
+
+/-- the invariant holds of every slot after any history that starts from well-formed values -/
+theorem C03.idom_history_valwf (hist : List (Dom.Step SEnv State)) (hs : ∀ st ∈ hist, C03.IdomStep st)
+    (p : Dom.Pool SEnv) (h : ∀ i, (p i).1.ValWF) : ∀ i, ((Dom.runHist p hist) i).1.ValWF := by
+  induction hist generalizing p with
+  | nil => exact h
+  | cons st rest ih =>
+    simp only [Dom.runHist, List.foldl_cons]
+    apply ih (fun x hx => hs x (List.mem_cons_of_mem _ hx))
+    intro i
+    have hst := hs st List.mem_cons_self
+    cases hst with
+    | trans d s hok =>
+      simp only [Dom.Step.run, Dom.Pool.set]; split
+      · exact s.exec_valwf (h d)
+      · exact h i
+    | join d a b =>
+      simp only [Dom.Step.run, Dom.Pool.set]; split
+      · exact (C03.idom_lattice_valwf _ _ (h a) (h b)).1
+      · exact h i
+    | widen d a b =>
+      simp only [Dom.Step.run, Dom.Pool.set]; split
+      · exact (C03.idom_lattice_valwf _ _ (h a) (h b)).2.2.1
+      · exact h i
+    | widenTh d a b ts hw =>
+      simp only [Dom.Step.run, Dom.Pool.set]; split
+      · exact C03.idom_widen_thresholds_valwf ts hw _ _ (h a) (h b)
+      · exact h i
+    | meet d a b =>
+      simp only [Dom.Step.run, Dom.Pool.set]; split
+      · exact (C03.idom_lattice_valwf _ _ (h a) (h b)).2.1
+      · exact h i
+    | narrow d a b =>
+      simp only [Dom.Step.run, Dom.Pool.set]; split
+      · exact (C03.idom_lattice_valwf _ _ (h a) (h b)).2.2.2
+      · exact h i
+    | copy d s0 =>
+      simp only [Dom.Step.run, Dom.Pool.set]; split
+      · exact h s0
+      · exact h i
+    | setBot d =>
+      simp only [Dom.Step.run, Dom.Pool.set]; split
+      · exact Env.valwf_bot
+      · exact h i
+
+/-- on such environments the code paths that can raise CRAB_ERROR (`-oo + +oo` in
+    `interval::operator+` / `operator-`) never do: the transcriptions with `Option` of
+    `operator[](expr)` / `assign`, of `compute_residual` and of the `switch` of `apply` return
+    `some` of the total functions the model uses -/
+theorem C03.idom_no_crab_error_eval (e : Env) (h : e.ValWF) (ex : Expr) :
+    Env.evalExprO e ex = some (e.evalExpr ex) := Env.evalExprO_eq h ex
+
+theorem C03.idom_no_crab_error_residual (env : Env) (h : env.ValWF) (c : Cst) (pivot : Var) (n : Nat) :
+    residualLoopO env pivot c.expr.terms (Itv.single c.constant) n = some (computeResidual c pivot env n) :=
+  residualLoopO_eq h pivot c.expr.terms _ n (Itv.wf_single _)
+
+theorem C03.idom_no_crab_error_apply (e : Env) (h : e.ValWF) (op : ArithOp) (y z : Var) (k : Int) :
+    op.evalO (e.get y) (e.get z) = some (op.eval (e.get y) (e.get z)) ∧
+    op.evalO (e.get y) (Itv.single k) = some (op.eval (e.get y) (Itv.single k)) :=
+  ⟨op.evalO_eq (Env.get_wf h y) (Env.get_wf h z), op.evalO_eq (Env.get_wf h y) (Itv.wf_single k)⟩
+
+/-- the exported system has exactly `γ` as solutions on every reachable value -/
+theorem C03.idom_to_csts_iff (e : Env) (σ : State) (hs : e.m.Sorted) (hw : e.ValWF) :
+    Sys.sat e.toCsts σ ↔ e.γ σ := ⟨Env.toCsts_complete hw, Env.toCsts_sound hs⟩
+
+/-- the fuel `m_max_op + 1` given to the loop of `solve_large_system` is never exhausted: any larger
+    fuel gives the same result (each iteration that goes on has increased `m_op_count`) -/
+theorem C03.idom_solver_fuel_exact (tbl : List Cst) (maxOp : Nat) (st : SolverSt) (k : Nat) :
+    solveLargeLoop tbl maxOp (maxOp + 1 + k) st = solveLargeLoop tbl maxOp (maxOp + 1) st :=
+  solveLargeLoop_fuel tbl maxOp st k
